@@ -150,8 +150,14 @@ func c12Check(c docCase) error {
 	return err
 }
 
+var (
+	c12ReuseEls *simdjson.Elements
+	c12PrevKeys []string
+)
+
 func c12Battery(c docCase) (c12Stats, error) {
 	var st c12Stats
+	c12ReuseEls, c12PrevKeys = nil, nil
 	model, err := modelOf(c.In)
 	if err != nil {
 		return st, err
@@ -437,11 +443,24 @@ func c12Object(pj *simdjson.ParsedJson, roots []*rj.Node, n *rj.Node, path []int
 			}
 		}
 	}
-	// Parse / Lookup / Map
+	// Parse / Lookup / Map; the Elements destination is the one the previously examined object was parsed into
 	{
 		o := *obj
-		els, err := o.Parse(nil)
+		els, err := o.Parse(c12ReuseEls)
+		c12ReuseEls = els
 		st.q("Parse", many)
+		if err == nil {
+			for _, k := range c12PrevKeys {
+				_, want := firstMember(n, k)
+				if el := els.Lookup(k); want == nil && el != nil {
+					return fmt.Errorf("Elements.Lookup(%q) at %v returned %q, a key of the object previously parsed into the same Elements; this object has no such member", k, path, el.Name)
+				}
+			}
+			c12PrevKeys = c12PrevKeys[:0]
+			for _, m := range n.O {
+				c12PrevKeys = append(c12PrevKeys, string(m.Key))
+			}
+		}
 		if err != nil {
 			return fmt.Errorf("Object.Parse at %v: %v", path, err)
 		}
@@ -528,7 +547,9 @@ func c12Array(pj *simdjson.ParsedJson, roots []*rj.Node, n *rj.Node, path []int,
 		}
 	}
 	nt := len(n.A) >= 2 || boundary
-	where := func(api string) string { return fmt.Sprintf("%s at %v (array %s)", api, path, clip(canonNode(nil, n, canonOpts{}))) }
+	where := func(api string) string {
+		return fmt.Sprintf("%s at %v (array %s)", api, path, clip(canonNode(nil, n, canonOpts{})))
+	}
 	// AsFloat
 	{
 		a := *arr
